@@ -58,6 +58,7 @@ type coro struct {
 }
 
 type frame struct {
+	parent *frame // the caller's frame when this function runs inline inside the caller's coroutine
 	fn     *a.Func
 	locals map[t.ID]Value
 	args   map[t.ID]Value
@@ -587,6 +588,10 @@ func (in *Interp) call(fr *frame, e *a.Expr, capture bool) Value {
 		switch meth {
 		case "length":
 			return num(int64(hi - lo))
+		default:
+			if m := peekRE.FindStringSubmatch(meth); m != nil || strings.HasPrefix(meth, "poke_u") {
+				return in.slicePeekPoke(fr, e, elems, lo, hi, meth, args)
+			}
 		case "copy_from_slice":
 			s := in.argByName(args, "s")
 			se, slo, shi := in.elements(s)
@@ -605,6 +610,52 @@ func (in *Interp) call(fr *frame, e *a.Expr, capture bool) Value {
 	}
 	in.unsupported("built-in " + meth + " on " + recv.String())
 	return Value{}
+}
+
+var pokeRE = regexp.MustCompile(`^poke_u(\d+)(le|be)?$`)
+
+// slicePeekPoke implements the unchecked-in-C slice methods peek_uNN[le|be][_as_uMM]() and
+// poke_uNN[le|be]!(a: v): their pre-condition (the slice holds at least NN/8 elements) is a C01 obligation.
+func (in *Interp) slicePeekPoke(fr *frame, e *a.Expr, elems *[]Value, lo, hi int, meth string, args map[t.ID]Value) Value {
+	bits, be, poke := 0, false, false
+	if m := peekRE.FindStringSubmatch(meth); m != nil {
+		bits, _ = strconv.Atoi(m[1])
+		be = m[2] == "be"
+	} else if m := pokeRE.FindStringSubmatch(meth); m != nil {
+		bits, _ = strconv.Atoi(m[1])
+		be = m[2] == "be"
+		poke = true
+	} else {
+		in.unsupported("built-in " + meth + " on a slice")
+	}
+	n := bits / 8
+	in.Stats.Slice++
+	if hi-lo < n {
+		in.fail(fr, "C01", "slice-peek-out-of-bounds", "%s needs %d elements, the slice has %d", e.Str(in.P.TM), n, hi-lo)
+		return num(0)
+	}
+	if poke {
+		v := new(big.Int).Set(in.argByName(args, "a").N)
+		mask := big.NewInt(0xFF)
+		for i := 0; i < n; i++ {
+			k := i
+			if be {
+				k = n - 1 - i
+			}
+			b := new(big.Int).And(new(big.Int).Rsh(v, uint(8*i)), mask)
+			(*elems)[lo+k] = numBig(b)
+		}
+		return Value{K: KEmpty}
+	}
+	r := new(big.Int)
+	for i := 0; i < n; i++ {
+		k := i
+		if be {
+			k = n - 1 - i
+		}
+		r.Or(r, new(big.Int).Lsh((*elems)[lo+k].N, uint(8*i)))
+	}
+	return numBig(r)
 }
 
 func (in *Interp) callIO(fr *frame, e *a.Expr, b *IOBuf, meth string, args map[t.ID]Value) Value {
@@ -751,6 +802,17 @@ func (in *Interp) suspend(fr *frame, st string) {
 		in.unsupported("suspension outside a coroutine")
 	}
 	in.Stats.Suspensions++
+	// Pointer-typed locals (slices) do not survive a suspension: the compiler drops every fact that involves them at
+	// a potential suspension point (lang/check updateFactsForSuspension) because the resumed function starts with
+	// them zeroed. They are emptied here, in every frame of the suspending call chain.
+	for f := fr; f != nil; f = f.parent {
+		for id, v := range f.locals {
+			if v.K == KSlice {
+				empty := []Value{}
+				f.locals[id] = Value{K: KSlice, Back: &empty}
+			}
+		}
+	}
 	line, fn := in.curLine, in.curFunc
 	fr.co.stack = in.stack
 	fr.co.out <- coroMsg{status: status(st)}
@@ -788,7 +850,7 @@ func (in *Interp) callUser(fr *frame, callee *a.Func, args map[t.ID]Value, captu
 			return st
 		}
 	}
-	nf := &frame{fn: callee, locals: map[t.ID]Value{}, args: args, co: fr.co, facts: fr.facts}
+	nf := &frame{fn: callee, locals: map[t.ID]Value{}, args: args, co: fr.co, facts: fr.facts, parent: fr}
 	return in.execFunc(nf)
 }
 
